@@ -396,11 +396,13 @@ impl IntColBuffer {
         // PERF: can set arbitrary values for null to help compression (extend from last/previous value)
         self.min = cmp::min(elem, self.min);
         self.max = cmp::max(elem, self.max);
+        if !self.data.is_empty() && elem.checked_sub(self.last).is_none() {
+            // The difference to the previous element does not fit i64 (in either direction).
+            self.allow_delta_encode = false;
+        }
         if elem > self.last {
             self.increasing += 1;
-        } else if elem.checked_sub(self.last).is_none() {
-            self.allow_delta_encode = false;
-        };
+        }
         self.last = elem;
         self.data.push(elem);
     }
